@@ -295,6 +295,13 @@ add("wrap_deflate::w_compressor_reset", ["C18"],
     stubs=["fill -> fill_model"], assumes=["<[T]>::fill on the 32 K-element arrays = whole-array assignment (model stub)"],
     replay=dict(kind="native", vals=[], cmd=["reset-check"], sig=lambda env: "reset-leaves-stale-state"))
 
+# init_tree rejection rules and the code-length run check (written in the extension round; none finished in 800 s: experimental)
+for hn, cl in (("s_init_tree_hufflen_reject", "code-length code (19 symbols, 3-bit lengths): init_tree starts building tables only for complete, not over-subscribed sets; every other set ends in BadTotalSymbols"),
+               ("s_init_tree_dist_reject", "distance code (30 symbols, lengths 0..15): accepted iff complete or at most one 1-bit code / empty; otherwise BadTotalSymbols"),
+               ("s_code_length_run_overshoot", "a repeat code 16/17/18 whose run passes HLIT+HDIST ends in BadCodeSizeSum (Failed), from the injected state ReadExtraBitsCodeSize")):
+    add("steps::" + hn, ["C04"], cl, "all code-length sets of that size (symbolic); table building cut at its first reverse_bits call", kind="S", tier="experimental", timeout=1800,
+        functions=["inflate::core::init_tree (counting, over-subscription and completeness checks)"], stubs=["reverse_bits -> reverse_bits_probe", "< [i16] > :: fill -> fill_model_tables"])
+
 
 # Harnesses that exist in the crate but do not fit this machine (resource failure or > 1 h); they are
 # never selected by ./check and are not part of any claim (DESIGN.md 3.2).
